@@ -149,6 +149,49 @@ func (ka *kindAnalysis) feasibleReturns(fn *ssa.Function, idx int, k string, dep
 	return out
 }
 
+// testsKind: the function decides something by the dynamic type of the parameter (an assertion or type switch on
+// it, or a helper of the module it hands the parameter to that does).
+func (ka *kindAnalysis) testsKind(fn *ssa.Function, idx int, depth int) bool {
+	if idx >= len(fn.Params) || depth > 3 {
+		return false
+	}
+	p := ssa.Value(fn.Params[idx])
+	strip := func(v ssa.Value) ssa.Value {
+		for {
+			switch x := v.(type) {
+			case *ssa.MakeInterface:
+				v = x.X
+				continue
+			case *ssa.ChangeInterface:
+				v = x.X
+				continue
+			}
+			return v
+		}
+	}
+	for _, b := range fn.Blocks {
+		for _, in := range b.Instrs {
+			switch x := in.(type) {
+			case *ssa.TypeAssert:
+				if _, isIface := x.AssertedType.Underlying().(*types.Interface); !isIface && strip(x.X) == p {
+					return true
+				}
+			case *ssa.Call:
+				callee := x.Call.StaticCallee()
+				if callee == nil || !inModule(callee) || len(callee.Blocks) == 0 {
+					continue
+				}
+				for i, a := range x.Call.Args {
+					if strip(a) == p && ka.testsKind(callee, i, depth+1) {
+						return true
+					}
+				}
+			}
+		}
+	}
+	return false
+}
+
 // accepted: the kinds for which fn can return without an error.
 func (ka *kindAnalysis) accepted(fn *ssa.Function, idx int) []string {
 	ei := hasErrorResult(fn)
@@ -170,7 +213,7 @@ func (ka *kindAnalysis) accepted(fn *ssa.Function, idx int) []string {
 // drop-last) are compared pairwise. Where one of them refuses a kind another accepts - nil, the empty
 // sequence of the language, say - one of the two is outside the documented model.
 func siblingDomainRule(w *World, r *Report, rule string) {
-	r.rule(rule, "the registered builtins of lib/core with the Go signature (int, MalType) (MalType, error) - the count-taking sequence builtins take, take-last, drop, drop-last - that answer for both lists and vectors and refuse plain values accept the same further kinds (nil, maps, sets) for their sequence argument (decided per kind by following each function's control flow with the argument's dynamic type fixed, through the helpers it hands the argument to): none of them fails on nil or on a vector where its siblings answer")
+	r.rule(rule, "the registered builtins of lib/core with the Go signature (int, MalType) (MalType, error) - the count-taking sequence builtins take, take-last, drop, drop-last - that answer for both lists and vectors and test the kind of their argument accept the same kinds (lists, vectors, nil - and refuse the same: maps, sets, plain values) for their sequence argument (decided per kind by following each function's control flow with the argument's dynamic type fixed, through the helpers it hands the argument to): none of them fails on nil or on a vector where its siblings answer")
 	ka := newKindAnalysis(w)
 	type sib struct {
 		fn    *ssa.Function
@@ -184,14 +227,14 @@ func siblingDomainRule(w *World, r *Report, rule string) {
 		if !isIntType(fn.Params[0].Type()) || !isMalType(fn.Params[1].Type()) || hasErrorResult(fn) != 1 {
 			continue
 		}
-		// a sequence consumer: it answers for lists and for vectors, and refuses what is no collection at all
-		// (a builtin of the same Go signature that takes any value - a repeat, say - is no sibling)
+		// a sequence consumer: it answers for lists and for vectors and looks at the kind of its argument
+		// (a builtin of the same Go signature that takes any value as it is - a repeat, say - is no sibling)
 		acc := ka.accepted(fn, 1)
 		has := map[string]bool{}
 		for _, k := range acc {
 			has[k] = true
 		}
-		if !has["List"] || !has["Vector"] || has["int"] || has["string"] {
+		if !has["List"] || !has["Vector"] || !ka.testsKind(fn, 1, 0) {
 			continue
 		}
 		sibs = append(sibs, sib{fn, strings.Join(acc, ",")})
